@@ -5,6 +5,7 @@
 //	c07 -seed N -only I -dump   print the objects of scenario I as a JSON array (corpus / replay format)
 //	c07 -objs file.json         run the objects stored in file.json (one JSON array)
 //	c07 -seed N -hseq K [-hb B] K batch sequences through the REAL eventHandlerImpl.HandleEventBatch (one line per batch)
+//	c07 -seed N -frag K         K scenarios inside the fragment of Model/Pipeline.lean (lines carry the flat scenario "flat")
 //	c07 -mkcorpus dir           (re)write the hand-minimised corpus scenarios
 package main
 
@@ -28,6 +29,7 @@ func main() {
 	objsFile := flag.String("objs", "", "run the objects of this file")
 	hseq := flag.Int("hseq", 0, "number of batch sequences driven through the REAL eventHandlerImpl (instead of -n scenarios)")
 	hb := flag.Int("hb", 5, "maximum number of batches per sequence")
+	frag := flag.Int("frag", 0, "number of scenarios inside the Pipeline fragment (instead of -n scenarios); lines carry \"flat\"")
 	mkcorpus := flag.String("mkcorpus", "", "write the hand-minimised corpus scenarios into this directory")
 	flag.Parse()
 
@@ -73,6 +75,43 @@ func main() {
 	// rng.New(S+1) is rng.New(S) advanced by one draw, so consecutive seeds would replay each other's scenarios shifted
 	// by one; derive the stream from a mixed value instead.
 	r := rng.New(rng.New(*seed).U64() ^ 0xC07)
+	if *frag > 0 {
+		// fragment stream: scenarios inside the fragment of Model/Pipeline.lean, each line carries the flat scenario
+		fr := rng.New(rng.New(*seed).U64() ^ 0xF4A6)
+		panics := 0
+		for i := 0; i < *frag; i++ {
+			s := c07.GenerateFragment(fr.Fork())
+			if *only >= 0 && i != *only {
+				continue
+			}
+			if *dump {
+				w.Write(p.EncodeObjects(s.Objs))
+				w.WriteByte('\n')
+				continue
+			}
+			// mostly reload ok (the truth theorems speak about the served configuration), every fourth case also failed
+			fails := []bool{false}
+			if i%4 == 0 {
+				fails = append(fails, true)
+			}
+			for _, fail := range fails {
+				suffix := "ok"
+				if fail {
+					suffix = "err"
+				}
+				l := c07.RunFragment(fmt.Sprintf("f%d-%d-%s", *seed, i, suffix), s, fail)
+				emit(l)
+				if l.Panic != "" {
+					panics++
+				}
+			}
+			if panics > 12 {
+				fmt.Fprintln(os.Stderr, "too many panics, stopping")
+				break
+			}
+		}
+		return
+	}
 	if *hseq > 0 {
 		panics := 0
 		for i := 0; i < *hseq; i++ {
